@@ -170,6 +170,114 @@ def strip_logging(tree) -> int:
 
 # ------------------------------------------------------------------------------------------------ H  helpers
 
+class _FoldConstantTests(ast.NodeTransformer):
+    """after a constant argument was substituted for a parameter: `if False:` arms, `not True`, `None is None` ..."""
+
+    def __init__(self):
+        self.n = 0
+
+    @staticmethod
+    def _const(e):
+        return isinstance(e, ast.Constant) and (e.value is None or isinstance(e.value, (bool, int, float, str)))
+
+    def visit_UnaryOp(self, n):
+        self.generic_visit(n)
+        if isinstance(n.op, ast.Not) and self._const(n.operand):
+            self.n += 1
+            return ast.copy_location(ast.Constant(value=not n.operand.value), n)
+        return n
+
+    def visit_Compare(self, n):
+        self.generic_visit(n)
+        if len(n.ops) == 1 and self._const(n.left) and self._const(n.comparators[0]):
+            a, b, op = n.left.value, n.comparators[0].value, n.ops[0]
+            if isinstance(op, (ast.Is, ast.IsNot)) and (a is None or b is None or isinstance(a, bool) or isinstance(b, bool)):
+                v = (a is b) if isinstance(op, ast.Is) else (a is not b)
+            elif isinstance(op, (ast.Eq, ast.NotEq)) and type(a) is type(b):
+                v = (a == b) if isinstance(op, ast.Eq) else (a != b)
+            else:
+                return n
+            self.n += 1
+            return ast.copy_location(ast.Constant(value=v), n)
+        return n
+
+    def visit_BoolOp(self, n):
+        self.generic_visit(n)
+        vals = []
+        for v in n.values:
+            if self._const(v):
+                t = bool(v.value)
+                if isinstance(n.op, ast.And):
+                    if t:
+                        if v is n.values[-1] and not vals:
+                            vals.append(v)
+                        elif v is n.values[-1]:
+                            vals.append(v)
+                        continue
+                    vals.append(v)
+                    break
+                else:
+                    if not t:
+                        if v is n.values[-1]:
+                            vals.append(v)
+                        continue
+                    vals.append(v)
+                    break
+            else:
+                vals.append(v)
+        if len(vals) != len(n.values):
+            self.n += 1
+            if len(vals) == 1:
+                return vals[0]
+            n.values = vals
+        return n
+
+    def visit_IfExp(self, n):
+        self.generic_visit(n)
+        if self._const(n.test):
+            self.n += 1
+            return n.body if n.test.value else n.orelse
+        return n
+
+    def _block(self, body):
+        out = []
+        for st in body:
+            r = self.visit(st)
+            if r is None:
+                continue
+            if isinstance(r, list):
+                out.extend(r)
+            else:
+                out.append(r)
+        return out
+
+    def visit_If(self, n):
+        n.test = self.visit(n.test)
+        n.body = self._block(n.body)
+        n.orelse = self._block(n.orelse)
+        if self._const(n.test):
+            self.n += 1
+            chosen = n.body if n.test.value else n.orelse
+            return chosen if chosen else None
+        if not n.body:
+            n.body = [ast.copy_location(ast.Pass(), n)]
+        return n
+
+
+def fold_constant_tests(stmts: list) -> list:
+    f = _FoldConstantTests()
+    out = f._block(stmts)
+    for st in out:
+        for x in ast.walk(st):
+            for fld in ('body', 'orelse', 'finalbody'):
+                b = getattr(x, fld, None)
+                if isinstance(b, list) and not b and fld == 'body' and isinstance(x, (ast.For, ast.While, ast.With, ast.Try,
+                                                                                         ast.ExceptHandler)):
+                    x.body = [ast.copy_location(ast.Pass(), x)]
+    return out or [ast.Pass()]
+
+
+
 def _top_functions(tree):
     """(qualname, fn, class node or None, owner body list) for module functions and methods (not nested)"""
     def rec(body, prefix, cls):
@@ -422,6 +530,8 @@ def _inline_call(caller, body, idx, st, c, helper, how, where):
     if sub:
         s_ = _Subst(sub)
         hbody = [s_.visit(s) for s in hbody]
+        if any(isinstance(a, ast.Constant) for a in sub.values()):
+            hbody = fold_constant_tests(hbody)
     # --- result ---------------------------------------------------------------------------------
     if where == 'return':
         new = hbody + ([ast.Return(value=ast.Constant(value=None))] if _falls_through(hbody) else [])
@@ -992,6 +1102,98 @@ def unroll_new_display_loops(fn, ref_heads: set[str]) -> int:
 unroll_new_display_loops.counter = 0
 
 
+
+# ------------------------------------------------------------------------------------------------ S  results by field
+
+def split_record_results(fn, ref_names: set[str]) -> int:
+    """`r = f(..)` where f returns an erased record of n fields (structnorm.RETURNS), r is a local the reference
+    function does not have, bound once, and every use of r is the load `r[k]` with constant k: the same program as
+    `r_0, .., r_n-1 = f(..)` with the uses replaced by the names."""
+    from . import structnorm
+    if not structnorm.RETURNS:
+        return 0
+    done = 0
+    for _ in range(20):
+        hit = None
+        pm = _parent_map(fn)
+        names_used = {x.id for x in ast.walk(fn) if isinstance(x, ast.Name)} | {x.arg for x in ast.walk(fn.args)
+                                                                                if isinstance(x, ast.arg)}
+        for _, _, body in _blocks(fn):
+            for st in body:
+                if not (isinstance(st, ast.Assign) and len(st.targets) == 1 and isinstance(st.targets[0], ast.Name)
+                        and isinstance(st.value, ast.Call)):
+                    continue
+                r = st.targets[0].id
+                if r in ref_names:
+                    continue
+                f = st.value.func
+                fname = f.id if isinstance(f, ast.Name) else f.attr if isinstance(f, ast.Attribute) else None
+                rec = structnorm.RETURNS.get(fname)
+                if rec is None or rec not in structnorm.ERASED:
+                    continue
+                fields = structnorm.ERASED[rec]
+                occ = [x for x in ast.walk(fn) if isinstance(x, ast.Name) and x.id == r]
+                if sum(1 for x in occ if not isinstance(x.ctx, ast.Load)) != 1:
+                    continue
+                loads = [x for x in occ if isinstance(x.ctx, ast.Load)]
+                if not loads or any(x not in list(_walk_scope(fn)) for x in loads):
+                    continue
+                subs = []
+                for x in loads:
+                    par = pm.get(id(x))
+                    if isinstance(par, ast.Subscript) and par.value is x and isinstance(par.ctx, ast.Load) and \
+                            isinstance(par.slice, ast.Constant) and isinstance(par.slice.value, int) and \
+                            0 <= par.slice.value < len(fields):
+                        subs.append(par)
+                    else:
+                        subs = None
+                        break
+                if not subs:
+                    continue
+                hit = (st, r, fields, subs)
+                break
+            if hit:
+                break
+        if not hit:
+            break
+        st, r, fields, subs = hit
+        names = []
+        for f in fields:
+            nm = f if f not in names_used and f not in names else f'{r}_{f}'
+            while nm in names_used or nm in names:
+                nm += '_'
+            names.append(nm)
+        tgt = ast.Tuple(elts=[ast.copy_location(ast.Name(id=nm, ctx=ast.Store()), st.targets[0]) for nm in names],
+                        ctx=ast.Store())
+        st.targets = [ast.copy_location(tgt, st.targets[0])]
+        for sub in subs:
+            nm = names[sub.slice.value]
+            sub.__class__ = ast.Name
+            del sub.value, sub.slice
+            sub.id = nm
+            sub.ctx = ast.Load()
+        done += 1
+    return done
+
+
+class _FoldDisplaySubscripts(ast.NodeTransformer):
+    """(a, b, c)[1] -> b when the other elements are effect-free"""
+
+    def __init__(self):
+        self.n = 0
+
+    def visit_Subscript(self, n):
+        self.generic_visit(n)
+        if isinstance(n.ctx, ast.Load) and isinstance(n.value, (ast.Tuple, ast.List)) and isinstance(n.slice, ast.Constant) \
+                and isinstance(n.slice.value, int) and not any(isinstance(e, ast.Starred) for e in n.value.elts) \
+                and -len(n.value.elts) <= n.slice.value < len(n.value.elts):
+            k = n.slice.value
+            if all(_effect_free(e) for i, e in enumerate(n.value.elts) if i != k % len(n.value.elts)):
+                self.n += 1
+                return n.value.elts[k]
+        return n
+
+
 # ------------------------------------------------------------------------------------------------ entry point
 
 def prenormalise(tree, rel: str, R: dict):
@@ -1016,7 +1218,13 @@ def prenormalise(tree, rel: str, R: dict):
                 n += unroll_new_display_loops(fn, _loop_heads(ast.parse(src)))
             except SyntaxError:
                 pass
+        n += split_record_results(fn, ref_names)
         n += inline_new_locals(fn, ref_names, ref_sigs, mutated)
+        fold = _FoldDisplaySubscripts()
+        fold.visit(fn)
+        if fold.n:
+            n += fold.n
+            n += inline_new_locals(fn, ref_names, ref_sigs, mutated)
     if n:
         tree = _Canon().visit(tree)
         ast.fix_missing_locations(tree)
